@@ -333,6 +333,20 @@ def native_enumeration(tier):
                 except Exception as e:  # noqa
                     fail("container-internal-error", "%s %s: %s: %s" % (kind, what, type(e).__name__, str(e)[:100]), kind=kind, case=what)
                     break
+        # a sheet that is not there (just past the end, far past the end, no sheet at all), through the validator
+        for kind, fmt, good in (("ods", "ods", ods), ("xlsx", "excel", xlsx)):
+            for sheet in (2, 3, 17):
+                for mode in ("yield", "raise", "continue"):
+                    n[0] += 1
+                    scid = interface.create_cid_from_string("d,format,%s\nd,sheet,%d\nf,a\nf,b\n" % (fmt, sheet))
+                    try:
+                        list(validio.rows(scid, good, on_error=mode))
+                        fail("data-internal-error", "%s with one sheet, sheet %d requested, mode %s: no error" % (kind, sheet, mode), kind=kind, sheet=sheet)
+                    except errors.DataError:
+                        pass
+                    except Exception as e:  # noqa
+                        fail("container-internal-error", "%s with one sheet, sheet %d requested, mode %s: %s: %s" % (
+                            kind, sheet, mode, type(e).__name__, str(e)[:100]), kind=kind, sheet=sheet)
         # delimited: undecodable bytes, unterminated quote; fixed: short record
         cid = interface.create_cid_from_string("d,format,delimited\nd,encoding,ascii\nf,a\nf,b\n")
         for name, blob in (("undecodable byte", b"a,b\n\xff,c\n"), ("unterminated quote", b'a,"b\nc,d\n'), ("nul byte", b"a,\x00\n"),
